@@ -684,3 +684,148 @@ Proof.
     rewrite G. rewrite (ts_write_wrong_version _ _ _ 1 _ _ _ r G); [reflexivity|].
     unfold tk, tkey in D. destruct (D2 _ _ _ _ D). lia.
 Qed.
+
+(* ---------- durable records only move forward ---------- *)
+Lemma quiet_advances : forall st st', quiet st st' -> advances st st'.
+Proof. intros. now apply evolves_advances, quiet_evolves. Qed.
+
+Lemma adv_step_exec : forall st mode r, Inv st -> advances st (fst (step_exec st mode r)).
+Proof.
+  intros st mode r I. unfold step_exec.
+  destruct (parse_rpc r) as [[rp r1]|]; [|apply advances_refl].
+  destruct r1 as [|nh r2]; [apply advances_refl|].
+  destruct (take nh r2) as [place r3].
+  destruct (find_pent (s_pool st) rp 0) as [e|] eqn:F; [|apply advances_refl].
+  apply find_pent_in in F.
+  assert (TB : tr_bound st (k_blob (p_rpc e)) (p_tr e)) by (intros x Hx; destruct I as [_ (_ & _ & K3)]; now apply K3).
+  set (hint := place ++ [-1] ++ match r3 with nd :: r4 => fst (take nd r4) | [] => [] end).
+  destruct (mode =? 4).
+  { cbn [fst]. destruct (inv_resume st e false hint I TB) as [I1 A1].
+    destruct (inv_flush 8 _ hint I1) as [_ A2]. eapply advances_trans; eauto. }
+  destruct (mode =? 6).
+  { destruct (negb (k_kind rp =? K_PullTract)); [apply advances_refl|]. cbn [fst].
+    match goal with |- context [set_reps st ?x] => set (st1 := set_reps st x) end.
+    assert (Q1 : quiet st st1) by apply quiet_set_reps.
+    assert (I1 : Inv st1) by (apply (inv_quiet st); auto).
+    destruct (inv_resume st1 e false hint I1 TB) as [I2 A2].
+    destruct (inv_flush 8 _ hint I2) as [I3 A3].
+    destruct (inv_fold_victims (filter (fun x => (p_st x =? 0) && (k_ts (p_rpc x) =? k_ts rp)) (s_pool (flush 8 (resume st1 e false hint) hint)))
+                               _ I3 (victims_bound _ _ I3)) as [_ A4].
+    eapply advances_trans; [apply quiet_advances; exact Q1|].
+    eapply advances_trans; [exact A2|]. eapply advances_trans; [exact A3|exact A4]. }
+  destruct (k_kind rp =? K_FixVersion).
+  { cbn [fst].
+    set (sa := set_pool st (pool_update (s_pool st) (set_pent e 1 [] [] (mode =? 2) (negb (mode =? 5))))).
+    assert (Ia : Inv sa) by (apply inv_pool_update; auto using tr_bound_nil).
+    assert (Aa : advances st sa) by (apply same_dur_advances; reflexivity).
+    set (sb := set_nsynth sa (s_nsynth st + 1)).
+    assert (Qb : quiet sa sb) by (repeat split; auto using pool_sub_refl).
+    set (sc := start_task sb _).
+    assert (Qc : quiet sb sc) by apply quiet_start_task.
+    assert (Ic : Inv sc) by (apply (inv_quiet sb); auto; apply (inv_quiet sa); auto).
+    destruct (inv_flush 8 sc hint Ic) as [_ Ad].
+    eapply advances_trans; [exact Aa|]. eapply advances_trans; [apply quiet_advances; exact Qb|].
+    eapply advances_trans; [apply quiet_advances; exact Qc|exact Ad]. }
+  destruct (exec_rpc st e place) as [[st1 res] tr] eqn:X1.
+  destruct (inv_exec _ _ _ _ _ _ I X1) as (E1 & P1 & T1).
+  assert (I1 : Inv st1) by (eapply evolves_inv; eauto).
+  destruct (mode =? 3).
+  - destruct (exec_rpc st1 e place) as [[st1b res2] tr2] eqn:X2. cbn [fst].
+    destruct (inv_exec _ _ _ _ _ _ I1 X2) as (E2 & P2 & T2).
+    assert (I2 : Inv st1b) by (eapply evolves_inv; eauto).
+    set (sa := set_pool st1b _).
+    assert (Ia : Inv sa).
+    { apply inv_pool_update; auto. { rewrite P2, P1. exact F. }
+      intros x Hx. destruct I1 as [D1 _]. eapply bound_advances; [apply evolves_advances; exact E2 | exact D1 | apply (T1 _ Hx)]. }
+    destruct (inv_flush 8 sa hint Ia) as [_ Af].
+    eapply advances_trans; [apply evolves_advances; exact E1|].
+    eapply advances_trans; [apply evolves_advances; exact E2|].
+    eapply advances_trans; [|exact Af]. apply same_dur_advances; reflexivity.
+  - cbn [fst]. set (sa := set_pool st1 _).
+    assert (Ia : Inv sa) by (apply inv_pool_update; auto; rewrite P1; exact F).
+    destruct (inv_flush 8 sa hint Ia) as [_ Af].
+    eapply advances_trans; [apply evolves_advances; exact E1|].
+    eapply advances_trans; [|exact Af]. apply same_dur_advances; reflexivity.
+Qed.
+
+Theorem adv_step : forall st ev, Inv st -> advances st (fst (step st ev)).
+Proof.
+  intros st ev I0. unfold step.
+  assert (I : Inv (set_out st [])) by exact I0.
+  assert (A0 : advances st (set_out st [])) by (apply same_dur_advances; reflexivity).
+  eapply advances_trans; [exact A0|]. clear A0 I0. set (s := set_out st []) in *. clearbody s.
+  assert (SAME : forall s', s_blobs s' = s_blobs s -> s_dtr s' = s_dtr s -> advances s s') by (intros; now apply same_dur_advances).
+  destruct ev as [|c a]; [apply advances_refl|].
+  destruct (c =? 1). { destruct a; apply SAME; reflexivity. }
+  destruct (c =? 2).
+  { destruct a as [|x [|y [|z a]]]; try apply advances_refl. destruct (zget (s_blobs s) x) eqn:G; [apply advances_refl|]. cbn [fst].
+    intros D. pose proof (inv_new_blob s x y I G) as [D' _]. split; auto. intros tk dv hs H. exists dv, hs. split; auto; lia. }
+  destruct (c =? 3). { destruct a as [|x1 [|x2 [|x3 [|x4 [|x5 [|x6 [|x7 a]]]]]]]; apply SAME; reflexivity. }
+  destruct (c =? 4). { destruct a as [|x1 [|x2 [|x3 [|x4 [|x5 [|x6 a]]]]]]; apply SAME; reflexivity. }
+  destruct (c =? 5).
+  { destruct a as [|x1 [|x2 [|x3 [|x4 [|x5 a]]]]]; try apply advances_refl.
+    destruct (take x5 a) as [bad rest]. cbn [fst].
+    set (sc := start_task s _). assert (Qc : quiet s sc) by apply quiet_start_task.
+    assert (Ic : Inv sc) by (apply (inv_quiet s); auto). destruct (inv_flush 8 sc [] Ic) as [_ Af].
+    eapply advances_trans; [apply quiet_advances; exact Qc|exact Af]. }
+  destruct (c =? 6).
+  { destruct a as [|x1 [|x2 [|x3 [|x4 [|x5 [|x6 [|x7 a]]]]]]]; try apply advances_refl. cbn [fst].
+    set (sc := start_task s _). assert (Qc : quiet s sc) by apply quiet_start_task.
+    assert (Ic : Inv sc) by (apply (inv_quiet s); auto). destruct (inv_flush 8 sc [] Ic) as [_ Af].
+    eapply advances_trans; [apply quiet_advances; exact Qc|exact Af]. }
+  destruct (c =? 7). { destruct a as [|mode rest]; [apply advances_refl|]. now apply adv_step_exec. }
+  destruct (c =? 8).
+  { destruct a as [|lose r]; [apply advances_refl|]. unfold step_reply.
+    destruct (parse_rpc r) as [[rp r1]|]; [|apply advances_refl].
+    destruct (find_pent (s_pool s) rp 2) as [e|] eqn:F; [|apply advances_refl].
+    apply find_pent_in in F. cbn [fst].
+    assert (TB : tr_bound s (k_blob (p_rpc e)) (p_tr e)) by (intros x Hx; destruct I as [_ (_ & _ & K3)]; now apply K3).
+    match goal with |- context [resume s e ?d ?h] => destruct (inv_resume s e d h I TB) as [I1 A1]; destruct (inv_flush 8 _ h I1) as [_ A2] end.
+    eapply advances_trans; eauto. }
+  destruct (c =? 9).
+  { destruct a as [|ts [|y a]]; try apply advances_refl. unfold step_restart. cbn [fst].
+    apply inv_fold_victims; [exact I | apply victims_bound; exact I]. }
+  destruct (c =? 10). { destruct a; apply SAME; reflexivity. }
+  destruct (c =? 11). { destruct a as [|ts [|y a]]; apply SAME; reflexivity. }
+  destruct (c =? 12).
+  { destruct a as [|x1 [|x2 [|x3 [|x4 [|x5 a]]]]]; try apply advances_refl. unfold step_probe.
+    destruct (tget (s_dtr s) (tkey x1 x2)) as [[ver hosts]|]; [|apply advances_refl].
+    destruct ((x3 =? 1) && (x4 =? 0)); [apply advances_refl|].
+    match goal with |- context [change_tract ?a ?b ?c ?d ?e ?f] =>
+      pose proof (evolves_change_tract a b c d e f) as H; destruct (change_tract a b c d e f) end.
+    cbn [fst] in *. now apply evolves_advances. }
+  destruct (c =? 13).
+  { unfold step_issue. destruct (parse_rpc a) as [[rp r1]|]; [|apply advances_refl].
+    destruct (issue_allowed s rp); apply SAME; reflexivity. }
+  destruct (c =? 14).
+  { destruct a as [|x1 [|x2 [|x3 a]]]; try apply advances_refl. unfold step_finclient.
+    repeat match goal with
+           | |- context [match ?x with _ => _ end] => destruct x eqn:?
+           | |- context [if ?x then _ else _] => destruct x eqn:?
+           end; apply SAME; reflexivity. }
+  destruct (c =? 15). { destruct a as [|op [|y a]]; try apply advances_refl. destruct (zget (s_fin s) op); apply SAME; reflexivity. }
+  destruct (c =? 16).
+  { unfold step_rpcdone. repeat match goal with
+                                | |- context [match ?x with _ => _ end] => destruct x eqn:?
+                                end; apply SAME; reflexivity. }
+  destruct (c =? 17).
+  { unfold step_inject. destruct (parse_rpc a) as [[rp r1]|]; [|apply advances_refl].
+    destruct ((k_cli rp <? 0) && _); apply SAME; reflexivity. }
+  apply advances_refl.
+Qed.
+
+(* along every run, from every reachable state: a durable tract record never disappears and its version
+   never decreases (each commit raises it by exactly one: commit_is_unique_per_version) *)
+Theorem durable_monotone : forall evs2 evs1 tk dv hs,
+  let st := run_state init_state evs1 in
+  tget (s_dtr st) tk = Some (dv, hs) ->
+  exists dv' hs', tget (s_dtr (run_state st evs2)) tk = Some (dv', hs') /\ dv <= dv'.
+Proof.
+  intros evs2 evs1 tk dv hs st. assert (I : Inv st) by (apply inv_reachable; exact inv_init).
+  clearbody st. revert st I dv hs. induction evs2 as [|ev evs IH]; intros st I dv hs H; cbn.
+  - exists dv, hs. split; auto; lia.
+  - destruct I as [D K]. destruct (adv_step st ev (conj D K) D) as [D' G].
+    destruct (G _ _ _ H) as (dv1 & hs1 & H1 & L1).
+    destruct (IH _ (inv_step st ev (conj D K)) _ _ H1) as (dv2 & hs2 & H2 & L2).
+    exists dv2, hs2. split; auto; lia.
+Qed.
